@@ -257,9 +257,10 @@ def rrs_layer(ctx, repo, hdap_ci, hdap_stub):
         h.attrs["registry"]["10.0.0.200"] = states["Online"]
         st.__dict__["registry_before"] = dict(h.attrs["registry"])
         r = I3.call(rdr, [h, ABits([I3.atom_form(("raw", i)) for i in range(64)], "bytes"), ("10.0.0.1", 50000)], {})
+        st.__dict__["conn_before"] = conn
         return h, r
 
-    reg_bad, conf_bad, raised = [], [], []
+    reg_bad, conf_bad, raised, flag_bad_r = [], [], [], []
     n_r = 0
     for st, (k, v) in explore(run_r, max_paths=20000):
         I3.st = st
@@ -277,6 +278,23 @@ def rrs_layer(ctx, repo, hdap_ci, hdap_stub):
         if req is not None and isinstance(req.attrs.get("payload"), AObj) and req.attrs["payload"].cls is rrs_ci:
             op = req.attrs["payload"].attrs.get("opcode")
         bits = {b: const_of(I3, st.__dict__["request_bits"][b]) for b in TYPE_BITS} if req is not None else {}
+        # the connected flag follows connect / close in the registration layer as well (whatever the payload is)
+        conn = st.__dict__.get("conn_before")
+        if req is not None and conn is not None:
+            kinds = [b for b in ("is_connect", "is_heartbeat", "is_close", "is_reject") if bits[b] == 1]
+            unknown = [b for b in ("is_connect", "is_heartbeat", "is_close", "is_reject") if bits[b] is None]
+            final = const_of(I3, h.attrs.get("hstrp_connected"))
+            final_same = _same_form(I3, h.attrs.get("hstrp_connected"), conn)
+            pk = op.name if op is not None else "no RRS payload"
+            if bits["is_ack"] == 0 and len(kinds) <= 1:
+                if kinds == ["is_connect"] and final != 1:
+                    flag_bad_r.append(f"connected flag is not 1 after a connect [{pk}]")
+                elif kinds == ["is_close"] and final != 0:
+                    flag_bad_r.append(f"connected flag is not 0 after a close [{pk}]")
+                elif kinds not in (["is_connect"], ["is_close"]) and not unknown and not final_same:
+                    flag_bad_r.append(f"connected flag changed by a {'/'.join(kinds) or 'data'} message [{pk}]")
+            if bits["is_ack"] == 1 and not final_same:
+                flag_bad_r.append(f"connected flag changed by an acknowledgement [{pk}]")
         want = None
         if op == rrs_types.get("RadioRegistrationRequest"):
             want = states["Online"]
@@ -310,6 +328,7 @@ def rrs_layer(ctx, repo, hdap_ci, hdap_stub):
     q = rdr.qualname
     ctx.extra["paths_rrs"] = n_r
     ctx.ob("handler/never-raises", q, not raised, f"{n_r} paths; " + ("; ".join(sorted(set(raised))[:3]) or "none raises"), rdr.loc)
+    ctx.ob("connected/flag", q, not flag_bad_r, "; ".join(sorted(set(flag_bad_r))[:3]) or "flag follows connect/close, whatever the payload", rdr.loc)
     ctx.ob("rrs/registry", q, not reg_bad, "; ".join(sorted(set(reg_bad))[:3]) or f"{n_r} paths: registry follows the last registration / offline message", rdr.loc)
     sn_invariant(ctx, repo, rci)
     ctx.ob("rrs/confirm-once", q, not conf_bad, "; ".join(sorted(set(conf_bad))[:3]) or "one success answer per registration request with a bounded S/N", rdr.loc)
